@@ -47,8 +47,9 @@ struct Monitor {
     // harness view of the guard slots: value and the log index after which the value was certainly in place
     std::vector<std::vector<long>> slot_val;
     std::vector<std::vector<long>> slot_since;
-    std::vector<std::vector<bool>> slot_valid;   // value obtained by protect / copy of a valid guard (second sentence of C01)
-    long viol_guarded = 0, viol_double = 0, viol_touch = 0, viol_unretired = 0;
+    std::vector<std::vector<bool>> slot_valid;   // value obtained by protect / UPWARD copy of a valid guard (second sentence of C01)
+    std::vector<std::vector<bool>> slot_lineage; // value obtained by protect / any copy of such a guard (known finding: downward copies)
+    long viol_guarded = 0, viol_double = 0, viol_touch = 0, viol_unretired = 0, viol_copy_down = 0;
     std::string first_viol;
     int destroying_tid = -1;
 } M;
@@ -115,6 +116,7 @@ int main( int argc, char** argv )
             M.slot_val.assign( n, std::vector<long>( realH, 0 ));
             M.slot_since.assign( n, std::vector<long>( realH, 0 ));
             M.slot_valid.assign( n, std::vector<bool>( realH, false ));
+            M.slot_lineage.assign( n, std::vector<bool>( realH, false ));
 
             vcase::run_workers( c, [&]( int t ) {
                 bool attached = false;
@@ -139,23 +141,23 @@ int main( int argc, char** argv )
                     switch ( code ) {
                     case 2: {
                         vcase::emitf( "detach" );
-                        for ( size_t j = 0; j < realH; ++j ) { M.slot_val[t][j] = 0; M.slot_valid[t][j] = false; }
+                        for ( size_t j = 0; j < realH; ++j ) { M.slot_val[t][j] = 0; M.slot_valid[t][j] = false; M.slot_lineage[t][j] = false; }
                         smr::detach_thread();
                         attached = false;
                         vcase::emitf( "detached" );
                         break; }
                     case 3: {
                         vcase::emitf( "protect %ld %ld", a, b );
-                        M.slot_val[t][a] = 0; M.slot_valid[t][a] = false;
+                        M.slot_val[t][a] = 0; M.slot_valid[t][a] = false; M.slot_lineage[t][a] = false;
                         HP::Guard g( nullptr ); g.guard_ref() = &td->hazards_[a];
                         void* p = g.protect( src[b] );
                         g.release();
-                        M.slot_val[t][a] = obj_of( p ); M.slot_since[t][a] = logsize(); M.slot_valid[t][a] = p != nullptr;
+                        M.slot_val[t][a] = obj_of( p ); M.slot_since[t][a] = logsize(); M.slot_valid[t][a] = p != nullptr; M.slot_lineage[t][a] = p != nullptr;
                         vcase::emitf( "protected %ld %ld", a, obj_of( p ));
                         break; }
                     case 4: {
                         vcase::emitf( "assign %ld %ld", a, b );
-                        M.slot_val[t][a] = 0; M.slot_valid[t][a] = false;
+                        M.slot_val[t][a] = 0; M.slot_valid[t][a] = false; M.slot_lineage[t][a] = false;
                         HP::Guard g( nullptr ); g.guard_ref() = &td->hazards_[a];
                         if ( b ) g.assign( (unsigned char*) ptr_of( b )); else g.clear();
                         g.release();
@@ -164,7 +166,7 @@ int main( int argc, char** argv )
                         break; }
                     case 5: {
                         vcase::emitf( "clear %ld", a );
-                        M.slot_val[t][a] = 0; M.slot_valid[t][a] = false;
+                        M.slot_val[t][a] = 0; M.slot_valid[t][a] = false; M.slot_lineage[t][a] = false;
                         HP::Guard g( nullptr ); g.guard_ref() = &td->hazards_[a];
                         g.clear();
                         g.release();
@@ -200,11 +202,13 @@ int main( int argc, char** argv )
                             ++M.viol_touch;
                             note( "thread " + std::to_string( t ) + " guard slot " + std::to_string( a ) + " refers to object " + std::to_string( o ) + " which has been disposed" );
                         }
+                        else if ( o && M.slot_lineage[t][a] && g_arena[o] == POISON )
+                            ++M.viol_copy_down;     // guard obtained through a copy into a lower slot (known finding hp-guard-copy-downward)
                         break; }
                     case 10: {
                         vcase::emitf( "copy %ld %ld", a, b );
-                        long v = M.slot_val[t][b]; bool valid = M.slot_valid[t][b];
-                        M.slot_val[t][a] = 0; M.slot_valid[t][a] = false;
+                        long v = M.slot_val[t][b]; bool valid = M.slot_valid[t][b]; bool lineage = M.slot_lineage[t][b];
+                        M.slot_val[t][a] = 0; M.slot_valid[t][a] = false; M.slot_lineage[t][a] = false;
                         HP::Guard g( nullptr ); g.guard_ref() = &td->hazards_[a];
                         HP::Guard gs( nullptr ); gs.guard_ref() = &td->hazards_[b];
                         g.copy( gs );
@@ -212,7 +216,7 @@ int main( int argc, char** argv )
                         // a copy is a valid guard of its own only in scan order (source slot below destination): a pass that is
                         // already running reads the slots in ascending order and would otherwise miss the pointer once the
                         // source is released (LV.Properties.Properties_C01: C01_copy_down_unsafe)
-                        M.slot_val[t][a] = v; M.slot_since[t][a] = logsize(); M.slot_valid[t][a] = valid && b <= a;
+                        M.slot_val[t][a] = v; M.slot_since[t][a] = logsize(); M.slot_valid[t][a] = valid && b <= a; M.slot_lineage[t][a] = lineage;
                         vcase::emitf( "copied" );
                         break; }
                     }
@@ -231,8 +235,8 @@ int main( int argc, char** argv )
                 note( "after destruction object " + std::to_string( kv.first ) + " retired " + std::to_string( kv.second ) + " time(s), disposed " + std::to_string( M.disposed[kv.first] ));
             }
         }
-        std::printf( "monitor guarded_dispose %ld double_dispose %ld unretired_dispose %ld touch_disposed %ld not_exactly_once %ld retired %ld\n",
-                     M.viol_guarded, M.viol_double, M.viol_unretired, M.viol_touch, missing, total_retired );
+        std::printf( "monitor guarded_dispose %ld double_dispose %ld unretired_dispose %ld touch_disposed %ld not_exactly_once %ld copy_down_disposed %ld retired %ld\n",
+                     M.viol_guarded, M.viol_double, M.viol_unretired, M.viol_touch, missing, M.viol_copy_down, total_retired );
         std::string counts = "monitor counts";
         for ( auto const& kv : M.retired ) counts += " " + std::to_string( kv.first ) + ":" + std::to_string( M.disposed[kv.first] );
         std::printf( "%s\n", counts.c_str());
